@@ -30,8 +30,16 @@ structure Cfg where
 deriving Repr, DecidableEq
 
 /-- the moment the stop request arrives -/
-inductive Moment | idle | beforeFirstFetch | midFetch | betweenStages | paused | drained
+inductive Moment
+  | idle | beforeFirstFetch | midFetch | betweenStages | paused | drained
+  | pausedByDiskWatcher       -- the crawler's own disk watcher holds the pipeline paused and the volume is still full
+  | pausedByWarcWatcher       -- the WARC-queue watcher holds the pipeline paused
+  | sourceBlockedOnInsert     -- every token is in use and the source is blocked handing the next seed to the reactor
 deriving Repr, DecidableEq
+
+def Moment.isPaused : Moment → Bool
+  | .paused | .pausedByDiskWatcher | .pausedByWarcWatcher => true
+  | _ => false
 
 inductive Outcome
   | returned                -- every component stopped, WARC clients closed
@@ -50,8 +58,8 @@ def firstSeed (S : SF) (c : Cfg) : Outcome :=
 handshake is a select with the context; blocked on a hand-over nobody takes any more (the next stage is paused or
 already stopped) it honours the stop only if that send is a select with the context -/
 def workerStop (ack : String) (sendsCancellable : Bool) (m : Moment) : Outcome :=
-  if m == .paused && ack != "cancellable" then .hang "worker blocked on the resume channel"
-  else if (m == .paused || m == .betweenStages || m == .midFetch) && !sendsCancellable then .hang "worker blocked on a send the stop cannot reach"
+  if m.isPaused && ack != "cancellable" then .hang "worker blocked on the resume channel"
+  else if (m.isPaused || m == .betweenStages || m == .midFetch || m == .sourceBlockedOnInsert) && !sendsCancellable then .hang "worker blocked on a send the stop cannot reach"
   else .returned
 
 /-- `archiver.Stop()`: cancel, wait for the workers, wait for the WARC writers of each client, close it -/
@@ -69,13 +77,34 @@ def archiverStop (A : AF) (U : UF) (P : PF) (c : Cfg) (m : Moment) : Outcome :=
 
 def andThen (a : Outcome) (b : Outcome) : Outcome := match a with | .returned => b | o => o
 
-/-- `stopPipeline()`: freeze the reactor, stop the four stages, the seen-store, the source, the reactor -/
+/-- does a watcher goroutine of this shape return once its context is cancelled? `returns`: at once; `returnsSecondRound`: the cancelled
+context fires a second time and that round returns; anything else may wait for the condition it paused the pipeline for -/
+def watcherReturns (shape : String) : Bool := shape == "returns" || shape == "returnsSecondRound"
+
+/-- `StopDiskWatcher()` and `StopWARCWritingQueueWatcher()`: cancel, then wait for the goroutine -/
+def watchersStop (P : PF) (m : Moment) : Outcome :=
+  if m == .pausedByDiskWatcher && !watcherReturns P.diskWatcherOnStop then
+    .hang "the disk watcher holds the pipeline paused and waits for free space before it returns"
+  else if m == .pausedByWarcWatcher && !watcherReturns P.warcWatcherOnStop then
+    .hang "the WARC-queue watcher holds the pipeline paused and waits for the queue to shrink before it returns"
+  else if P.diskWatcherOnStop == "missing" || P.warcWatcherOnStop == "missing" then .hang "watcher shape not recognised"
+  else .returned
+
+/-- the source (`lq.Stop()` / `hq.Stop()`) waits for its consumer, which may sit in `reactor.ReceiveInsert` waiting for a token: only
+`Freeze()` (called before) can wake it, and only if that wait also listens to the freeze context -/
+def sourceStop (P : PF) (m : Moment) : Outcome :=
+  if m == .sourceBlockedOnInsert && !P.insertWaitWokenByFreeze then .hang "the source's consumer is blocked in ReceiveInsert and Freeze does not wake it"
+  else .returned
+
+/-- `stopPipeline()`: stop the watchers, freeze the reactor, stop the four stages, the seen-store, the source, the reactor -/
 def stopPipeline (A : AF) (U : UF) (P : PF) (c : Cfg) (m : Moment) : Outcome :=
   if !P.stopOrderFreezeStagesSourceReactor then .hang "a stage is stopped after the component it hands its seeds to" else
+  andThen (watchersStop P m) <|
   andThen (workerStop U.preprocessorAck P.preSendsCancellable m) <|
   andThen (archiverStop A U P c m) <|
   andThen (workerStop U.postprocessorAck P.postSendsCancellable m) <|
-  workerStop U.finisherAck true m
+  andThen (workerStop U.finisherAck true m) <|
+  sourceStop P m
 
 /-- a whole run that survives until the stop request and then stops -/
 def runAndStop (A : AF) (S : SF) (U : UF) (P : PF) (c : Cfg) (m : Moment) : Outcome :=
